@@ -541,3 +541,105 @@ Theorem C10_deposit_qsr_is_the_source : forall (a : cacct cstore) (s : send),
         tget (q_dep (a_store a')) (s_from s) = Some (u256 (cur + s_amount s))
   end.
 Proof. exact deposit_qsr_is_source. Qed.
+
+(* plasma.CancelFuse, htlc.Reclaim, htlc.Unlock of the hand model = the translated source (num: injective encoding of
+   addresses as numbers; H: the hash function of the HTLC contract) *)
+Theorem C10_cancel_fuse_is_the_source : forall (num : bytes -> Z) (e : env) (a : cacct pstore) (s : send) ,
+    match cancel_fuse_validate s with
+    | VErr c =>
+        cancel_fuse_receive e a s = MErr c /\
+        (c <> 0 -> forall fa u f g exph h ge amt d1 d2 own sv,
+           CancelFuse_receive fa c u f g exph h ge amt d1 d2 own sv = GoSem.Ok (nil, c, fa, None, None, None))
+    | VPanic => cancel_fuse_receive e a s = MPanic
+    | VOk id =>
+        match tget (p_fusions (a_store a)) (s_from s ++ id) with
+        | None =>
+            cancel_fuse_receive e a s = MErr E_nonexistent /\
+            forall fa exph h ge amt d1 d2 own sv,
+              CancelFuse_receive fa 0 0 0 Err_constants_ErrDataNonExistent exph h ge amt d1 d2 own sv =
+              GoSem.Ok (nil, Err_constants_ErrDataNonExistent, fa, None, None, None)
+        | Some ent =>
+            let fused := match tget (p_fused (a_store a)) (f_ben ent) with Some v => v | None => 0 end in
+            let src := CancelFuse_receive fused 0 0 0 0 (f_exp ent) (e_height e) 0 (f_amount ent) 0 0 (num (s_from s)) 0 in
+            if e_height e <? f_exp ent then
+              cancel_fuse_receive e a s = MErr E_revoke_not_due /\
+              src = GoSem.Ok (nil, Err_constants_RevokeNotDue, fused, None, None, None)
+            else
+              exists a',
+                cancel_fuse_receive e a s =
+                  MOk a' [{| d_to := s_from s; d_amount := f_amount ent; d_zts := ZtsQsr; d_data := [] |}] /\
+                src = GoSem.Ok ([(num (s_from s), f_amount ent, QsrTokenStandard)], 0, fused - f_amount ent, Some 1,
+                          (if fused - f_amount ent =? 0 then Some 1 else None),
+                          (if fused - f_amount ent =? 0 then None else Some 1)) /\
+                tget (p_fusions (a_store a')) (s_from s ++ id) = None /\
+                tget (p_fused (a_store a')) (f_ben ent) =
+                  (if fused - f_amount ent =? 0 then None else Some (u256 (fused - f_amount ent)))
+        end
+    end.
+
+Proof. exact cancel_fuse_is_source. Qed.
+Theorem C10_reclaim_htlc_is_the_source : forall (num : bytes -> Z) (num_inj : forall x y, num x = num y -> x = y) (e : env) (a : cacct hstore) (s : send) ,
+    match reclaim_validate s with
+    | VErr c =>
+        reclaim_receive e a s = MErr c /\
+        (c <> 0 -> forall u g tl sender f now exp d amt zts,
+           ReclaimHtlc_receive c u g tl sender f now exp d amt zts = GoSem.Ok (nil, c, None))
+    | VPanic => reclaim_receive e a s = MPanic
+    | VOk id =>
+        match tget (h_entries (a_store a)) id with
+        | None =>
+            reclaim_receive e a s = MErr E_nonexistent /\
+            forall tl sender f now exp d amt zts,
+              ReclaimHtlc_receive 0 0 Err_constants_ErrDataNonExistent tl sender f now exp d amt zts =
+              GoSem.Ok (nil, Err_constants_ErrDataNonExistent, None)
+        | Some ent =>
+            let src := ReclaimHtlc_receive 0 0 0 (num (h_timelocked ent)) (num (s_from s)) 0 (e_now e) (h_exp ent) 0
+                         (h_amount ent) (num (h_zts ent)) in
+            match reclaim_receive e a s with
+            | MOk a' ds =>
+                ds = [{| d_to := h_timelocked ent; d_amount := h_amount ent; d_zts := h_zts ent; d_data := [] |}] /\
+                src = GoSem.Ok ([(num (h_timelocked ent), h_amount ent, num (h_zts ent))], 0, Some 1) /\
+                tget (h_entries (a_store a')) id = None
+            | MErr c =>
+                (c = E_permission /\ src = GoSem.Ok (nil, Err_constants_ErrPermissionDenied, None)) \/
+                (c = E_reclaim_not_due /\ src = GoSem.Ok (nil, Err_constants_ReclaimNotDue, None))
+            | MPanic => False
+            end
+        end
+    end.
+
+Proof. intros num num_inj. exact (reclaim_htlc_is_source (fun _ x => x) num num_inj). Qed.
+Theorem C10_unlock_htlc_is_the_source : forall (H : Z -> bytes -> bytes) (num : bytes -> Z) (num_inj : forall x y, num x = num y -> x = y) (e : env) (a : cacct hstore) (s : send) ,
+    match unlock_validate s with
+    | VErr c =>
+        unlock_receive H e a s = MErr c /\
+        (c <> 0 -> forall u g proxy pe sender hl f now exp plen kmax ht heq d amt zts,
+           UnlockHtlc_receive c u g proxy pe sender hl f now exp plen kmax ht heq d amt zts = GoSem.Ok (nil, c, None))
+    | VPanic => unlock_receive H e a s = MPanic
+    | VOk (id, pre) =>
+        match tget (h_entries (a_store a)) id with
+        | None =>
+            unlock_receive H e a s = MErr E_nonexistent /\
+            forall proxy pe sender hl f now exp plen kmax ht heq d amt zts,
+              UnlockHtlc_receive 0 0 Err_constants_ErrDataNonExistent proxy pe sender hl f now exp plen kmax ht heq d amt zts =
+              GoSem.Ok (nil, Err_constants_ErrDataNonExistent, None)
+        | Some ent =>
+            0 <= h_keymax ent < 256 ->
+            let src := UnlockHtlc_receive 0 0 0 (proxy_allowed (a_store a) (h_hashlocked ent)) 0 (num (s_from s))
+                         (num (h_hashlocked ent)) 0 (e_now e) (h_exp ent) (len pre) (h_keymax ent) (h_type ent)
+                         (bytes_eqb (H (h_type ent) pre) (h_lock ent)) 0 (h_amount ent) (num (h_zts ent)) in
+            match unlock_receive H e a s with
+            | MOk a' ds =>
+                ds = [{| d_to := h_hashlocked ent; d_amount := h_amount ent; d_zts := h_zts ent; d_data := [] |}] /\
+                src = GoSem.Ok ([(num (h_hashlocked ent), h_amount ent, num (h_zts ent))], 0, Some 1) /\
+                tget (h_entries (a_store a')) id = None
+            | MErr c =>
+                (c = E_permission /\ src = GoSem.Ok (nil, Err_constants_ErrPermissionDenied, None)) \/
+                (c = E_expired /\ src = GoSem.Ok (nil, Err_constants_ErrExpired, None)) \/
+                (c = E_preimage /\ src = GoSem.Ok (nil, Err_constants_ErrInvalidPreimage, None))
+            | MPanic => False
+            end
+        end
+    end.
+
+Proof. intros H num num_inj. exact (unlock_htlc_is_source H num num_inj). Qed.
